@@ -163,6 +163,7 @@ func (t *Topic) DeleteExistingChannel(channelName string) error {
 	// to enforce ordering
 	channel.Delete()
 	verif.Yield("chandelete.afterDelete", vc(channel))
+	verif.CrashPoint("chandelete.afterDelete")
 
 	t.Lock()
 	delete(t.channelMap, channelName)
